@@ -10,6 +10,7 @@ import hashlib
 from .. import env
 
 ID = 'C16'
+BUILDER_DEFAULTS = True     # tools.* goes through tsverif/omit.py
 RULE = ('grid: constraint c in edge set x unsigned encodings of 1..9 bytes x '
         'threshold in {-1,0,1,2,60,2^31} x now around (c - thr) x t within +-2 '
         'of each boundary {c, now+thr}; plus random 63-bit quadruples and the '
